@@ -12,7 +12,9 @@ prefixes; the marked end is the circle's centre; T3 corners: for every entry who
 against two non-opposite neighbours, the arc's end points coincide with end points of the entry's
 lines or lie on the tested neighbours' cells, and the arc's centre (SVG end-point semantics with
 Arc::new's normalisation) lies on the inner side of the corner, at the axis-aligned corner for
-axis-parallel neighbours.  Not decided: the merge of polygon + line into one marker line at run
+axis-parallel neighbours; T4 continuity: the table is evaluated cell by cell on rounded outlines of every corner
+style (widths 1..4 x side rows 0..3 exhaust the 3x3 neighbourhoods of all sizes): no outline cell falls back to
+text and every fragment end meets another fragment.  Not decided: the merge of polygon + line into one marker line at run
 time, catalogue arcs of big circles."""
 import math
 import re
@@ -108,6 +110,7 @@ def run(run):
     t1(run, T)
     t2(run, T)
     t3(run, T)
+    t4(run, T)
     run.assume("the run-time merge of polygon + line into a marker line (Polygon tags -> markers) is not decided")
 
 
@@ -461,6 +464,106 @@ def t3(run, T):
                 else:
                     run.ok("C14.T3", inst, w, "centre (%.2f,%.2f) inner side, ends attached" % g["center"])
     run.floor("C14.T3", "corner_arcs", n, 25)
+
+
+# rounded outlines without side rows that are open on the pinned tree.  They lie outside the statement's size range
+# (sides 1..15) and are therefore not reported; every *other* smallest outline is closed today and has to stay closed.
+BOUNDARY_OPEN = {
+    (",", "'"): "`,` offers only line(m,r) to the cell below (its signature does not reach the bottom edge like `.`), so a `'` "
+                "directly below a `,` finds no connection: ',--.' over \"'--'\" leaves the quote as text",
+}
+
+
+def t4(run, T):
+    """T4 outlines are continuous (model evaluation).  A cell's fragments depend on its eight neighbours only, so the
+    neighbourhoods that occur in rounded outlines of *all* sizes are exhausted by widths 1..4 x side rows 0..3.  For
+    every corner style the table is evaluated cell by cell on such outlines; every cell of the outline must yield a
+    fragment (none falls back to text) and every end point of every fragment must meet another fragment."""
+    import itertools as it
+
+    def frags_of(ch, nbs):
+        if ch in T.ascii:
+            return T.fragments(ch, nbs)
+        if ch in T.unicode:
+            return list(T.unicode[ch]["frags"])
+        return []
+
+    def outline(tl, tr, bl, br, hz, vt, w, h):
+        rows = [" " + tl + hz * w + tr + " "]
+        rows += [" " + vt + " " * w + vt + " "] * h
+        rows += [" " + bl + hz * w + br + " "]
+        blank = " " * len(rows[0])
+        return [blank] + rows + [blank]
+
+    def evaluate(grid):
+        H, W = len(grid), len(grid[0])
+        frs, text = [], []
+        for y in range(H):
+            for x in range(W):
+                ch = grid[y][x]
+                if ch == " ":
+                    continue
+                nbs = {}
+                for d in DIRS:
+                    dx, dy = DIR_OFF[d]
+                    yy, xx = y + dy, x + dx
+                    c = grid[yy][xx] if 0 <= yy < H and 0 <= xx < W else None
+                    nbs[d] = None if c in (None, " ") else c
+                got = frags_of(ch, nbs)
+                if not got:
+                    text.append((x - 1, y - 1, ch))
+                for fr in got:
+                    if fr[0] in ("line", "arc"):
+                        a = ("pt", fr[1][1] + x, fr[1][2] + 2 * y)
+                        b = ("pt", fr[2][1] + x, fr[2][2] + 2 * y)
+                        frs.append((fr[0], a, b, (x - 1, y - 1, ch)))
+        dang = []
+        for i, f in enumerate(frs):
+            for p in (f[1], f[2]):
+                if not any(i != j and (p == g[1] or p == g[2] or (g[0] == "line" and on_segment(g[1], g[2], p))) for j, g in enumerate(frs)):
+                    dang.append((p, f[3]))
+        return text, dang
+
+    styles = [(tl, tr, bl, br, "-", "|") for tl, tr, bl, br in it.product(".,", ".", "'`", "'")]
+    if all(c in T.unicode for c in "╭╮╰╯─│"):
+        styles.append(("╭", "╮", "╰", "╯", "─", "│"))
+    n = 0
+    for tl, tr, bl, br, hz, vt in styles:
+        if any(c not in T.ascii and c not in T.unicode for c in (tl, tr, bl, br, hz, vt)):
+            run.missing("C14.T4", "table entry for one of %r" % ((tl, tr, bl, br, hz, vt),))
+            continue
+        style = "%s%s/%s%s" % (tl, tr, bl, br)
+        bad_in, bad_boundary = None, None
+        for w_ in range(1, 5):
+            for h in range(0, 4):
+                n += 1
+                text, dang = evaluate(outline(tl, tr, bl, br, hz, vt, w_, h))
+                if text or dang:
+                    if h >= 1 and bad_in is None:
+                        bad_in = (w_, h, text, dang)
+                    if h == 0 and bad_boundary is None:
+                        bad_boundary = (w_, h, text, dang)
+
+        def describe(b):
+            w_, h, text, dang = b
+            return "outline %d wide with %d side row(s): %s%s" % (
+                w_, h, ("cell(s) %s fall back to text; " % ", ".join("%r at (%d,%d)" % (c, x, y) for x, y, c in text)) if text else "",
+                ("loose end(s) at %s" % ", ".join("(%s,%s) of %r" % (float(p[1]) - 1, float(p[2]) - 2, c[2]) for p, c in dang[:3])) if dang else "")
+        if bad_in:
+            run.bad("C14.T4", "outline-open/%s" % style, T.ascii_file, "rounded outline with corners %s is not continuous: %s" % (style, describe(bad_in)))
+        else:
+            run.ok("C14.T4", "rounded outlines with corners %s are closed curves (widths 1..4 x 1..3 side rows; every cell draws, every end meets another fragment)" % style, T.ascii_file)
+        if bad_boundary:
+            if (tl, bl) in BOUNDARY_OPEN:
+                run.ok("C14.T4", "smallest outline (no side rows) with corners %s is open on the pinned tree; outside the stated size range, recorded" % style,
+                       T.ascii_file, BOUNDARY_OPEN[(tl, bl)], nontrivial=False)
+            else:
+                run.bad("C14.T4", "outline-open-smallest/%s" % style, T.ascii_file,
+                        "the smallest rounded outline with corners %s (corners directly above each other) was continuous and is not any more: %s" % (style, describe(bad_boundary)))
+        elif (tl, bl) in BOUNDARY_OPEN:
+            run.note("C14.T4: the smallest outline with corners %s is closed now; its BOUNDARY_OPEN entry is obsolete" % style)
+    run.record("outline_grids_evaluated", n)
+    run.floor("C14.T4", "outline_grids", n, 64)
 
 
 run_flow = run
